@@ -247,7 +247,11 @@ def _work(task):
                 # the operation failed with Error: the connection is unusable afterwards, only the failure must agree
                 same = o2["res"][0] == "error"
             else:
-                same = all(o2.get(k) == base.get(k) for k in ("res", "errcode", "errmsg", "s1", "s2")) and not o2["left"]
+                same = all(o2.get(k) == base.get(k) for k in ("res", "errcode", "errmsg", "s1", "s2"))
+                # octets left unread: socket + client buffer -- comparable only if the client's buffer can be observed
+                # (private attribute, best effort); otherwise the sentinels alone reveal leftovers
+                if o2["buf"] is not None and base["buf"] is not None:
+                    same = same and (len(o2["left"]) + len(o2["buf"]) == len(base["left"]) + len(base["buf"]))
             if not same:
                 recs.append({"reply": r["tag"], "wire": repr(wire), "op": op, "schedule": [kind, plan, cap],
                              "obs": repr(o2), "base": repr(base), "expl": devs if (devs and not ok) else None,
@@ -266,7 +270,7 @@ def _work(task):
         for kind, plan, cap in scheds:
             o2 = run_connect(wire, (lambda b, p=plan: (p if p else [len(b)])), cap)
             n_exec += 1
-            if any(o2.get(k) != base.get(k) for k in keys) or o2["left"]:
+            if any(o2.get(k) != base.get(k) for k in keys):
                 recs.append({"reply": r["tag"], "wire": repr(wire), "op": "connect", "schedule": [kind, plan, cap],
                              "obs": repr(o2), "base": repr(base), "expl": None,
                              "what": "result depends on the segmentation"})
